@@ -315,7 +315,7 @@ func (s StructDecl) homeRef() string {
 // "i" and "e" are the names the generated slice loops use for index and element: a declared operand name must survive them
 var paramNames = []string{"in", "from", "s", "p", "e", "i"}
 var resultNames = []string{"out", "to", "d", "res", "e", "i"}
-var extraTypes = []string{"int", "string", "LInt", "*LInner", "ext.MyInt", "[]int", "bool", "[]LInt", "map[string]ext.MyInt", "[]*ext.Inner", "func(LInt) ext.MyInt"}
+var extraTypes = []string{"int", "string", "LInt", "*LInner", "ext.MyInt", "[]int", "bool", "[]LInt", "map[string]ext.MyInt", "[]*ext.Inner", "func(LInt) ext.MyInt", "*ext.Inner", "*LInner", "LInner", "*ext.Cat"}
 
 // GenShape draws the shape dimensions of a method (only legal combinations; C08 enumerates the
 // illegal ones separately).
@@ -687,12 +687,26 @@ func GenNotations(t *rapid.T, m *Method, src, dst StructDecl, uf *UserFuncs, pf 
 			if strings.Contains(d.Path, ".") {
 				dollarOneOdds = 2
 			}
-			if rapid.IntRange(0, dollarOneOdds).Draw(t, "dollarOne") == 0 && !strings.Contains(s.Path, "()") {
+			if rapid.IntRange(0, dollarOneOdds).Draw(t, "dollarOne") == 0 {
 				// "$1" is the source operand itself, at every nesting depth of the destination
 				m.Notes = append(m.Notes, Notation{"map", []string{"$1." + s.Path, d.Path}})
 			} else if len(m.Extras) > 0 && rapid.IntRange(0, 2).Draw(t, "tmpl") == 0 {
 				ei := rapid.IntRange(0, len(m.Extras)-1).Draw(t, "ei")
-				m.Notes = append(m.Notes, Notation{"map", []string{fmt.Sprintf("$%d", ei+2), d.Path}})
+				arg := fmt.Sprintf("$%d", ei+2)
+				// a member of the additional argument: field, getter, pointer-receiver getter, (T, error) getter as the
+				// last segment, and members the home package cannot see (must end as "no match")
+				if ms := knownMembers(m.Extras[ei].Type, true); len(ms) > 0 && rapid.IntRange(0, 2).Draw(t, "tmplMember") != 0 {
+					paths := []string{}
+					for _, k := range ms {
+						paths = append(paths, k.Path)
+					}
+					switch m.Extras[ei].Type {
+					case "*LInner", "*ext.Inner":
+						paths = append(paths, "E()", "E()", "c", "hid()", "PB()", "C()")
+					}
+					arg += "." + rapid.SampledFrom(paths).Draw(t, "tmplPath")
+				}
+				m.Notes = append(m.Notes, Notation{"map", []string{arg, d.Path}})
 			} else {
 				m.Notes = append(m.Notes, Notation{"map", []string{s.Path, d.Path}})
 			}
